@@ -138,6 +138,41 @@ func vDiodeStuck(poller bool, size int) {
 	zzverif.Reach("diode/stuck-writer")
 }
 
+// An alerter may log through the same diode (e.g. via the global logger). The consumer calls it
+// from inside TryNext; its Write must not block on anything the consumer holds (C12: neither the
+// consumer nor Close can end up blocked forever).
+func vDiodeReenter(poller bool) {
+	sink := &vSink{}
+	interval := time.Duration(0)
+	if poller {
+		interval = time.Millisecond
+	}
+	var w Writer
+	alerts := 0
+	w = NewWriter(sink, 1, interval, func(missed int) {
+		alerts++
+		if alerts == 1 {
+			n, err := w.Write([]byte("dr"))
+			zzverif.Assert(n == 2 && err == nil, "C12: a Write from inside the alerter returns")
+		}
+	})
+	var wg sync.WaitGroup
+	wg.Add(1)
+	go func() {
+		// three writes into a ring of one slot: the consumer is lapped and alerts
+		w.Write([]byte("a0"))
+		w.Write([]byte("a1"))
+		w.Write([]byte("a2"))
+		wg.Done()
+	}()
+	wg.Wait()
+	zzverif.Assert(w.Close() == nil, "C12: Close returns although the alerter wrote through the same diode")
+	zzverif.Reach("diode/reenter")
+}
+
+func VH_C10_reenter_waiter() { vDiodeReenter(false) }
+func VH_C10_reenter_poller() { vDiodeReenter(true) }
+
 func VH_C10_stuck_writer_waiter() { vDiodeStuck(false, 1+zzverif.Choice(2)) }
 func VH_C10_stuck_writer_poller() { vDiodeStuck(true, 1+zzverif.Choice(2)) }
 
